@@ -178,6 +178,9 @@ type Cluster struct {
 var hookMu sync.Mutex
 
 // NewCluster builds n validators (committee = validators = n), each with its own ledger, queue, pool and service.
+// MaxTxPerBlock is the block capacity of the clusters built next (scenes about full proposals lower it).
+var MaxTxPerBlock uint16 = 16
+
 func NewCluster(n int, dir string, logf func(map[string]any)) (*Cluster, error) {
 	c := &Cluster{N: n, F: (n - 1) / 3, Net: chainkit.NewNet(n, n), clk: &clock{now: time.Unix(1_700_000_000, 0)},
 		bySvc: map[consensus.Service]*Node{}, dir: dir, Log: logf}
@@ -193,7 +196,7 @@ func NewCluster(n int, dir string, logf func(map[string]any)) (*Cluster, error) 
 	hook := func(cfg *config.Blockchain) {
 		cfg.TimePerBlock = 100 * time.Millisecond
 		cfg.Genesis.TimePerBlock = 100 * time.Millisecond
-		cfg.MaxTransactionsPerBlock = 16
+		cfg.MaxTransactionsPerBlock = MaxTxPerBlock
 		cfg.MemPoolSize = 100
 	}
 	for i := 0; i < n; i++ {
@@ -470,9 +473,14 @@ func (c *Cluster) ServeTxRequests() int {
 		for _, h := range rq[1].([]util.Uint256) {
 			for _, o := range c.Nodes {
 				if tx, ok := o.BC.GetMemPool().TryGetValue(h); ok {
-					if c.GiveTx(node, tx) == nil {
-						served++
-					}
+					// what the server does with a transaction consensus asked for: hand it to the service FIRST, whatever
+					// the node's own pool then says about it (it may conflict with something pooled there)
+					cp := *tx
+					c.Nodes[node].Svc.OnTransaction(&cp)
+					c.Settle()
+					cp2 := *tx
+					_ = c.Nodes[node].BC.PoolTx(&cp2)
+					served++
 					break
 				}
 			}
